@@ -45,6 +45,7 @@ struct G<'a> {
     en_bagdrop: bool,
     en_len: bool,
     en_inner: bool,
+    en_adapt: bool,
     fault_p: u32, // out of 16
 }
 
@@ -117,8 +118,20 @@ impl<'a> G<'a> {
                 }
             }
             F::V => {
-                let c = self.r.weighted(&[3, 3, 3, 2, 2, 1, 2]);
+                let c = self.r.weighted(&[3, 3, 3, 2, 2, 1, 2, 2, 1]);
                 match c {
+                    7 => {
+                        let a = self.r.below(3);
+                        let f = self.fault(self.n);
+                        self.push(Op::abf(OpK::VMap, a, 0, f));
+                        if f > 0 && (f as usize) <= self.n {
+                            self.form = F::Gone;
+                        }
+                    }
+                    8 => {
+                        let a = self.r.below(self.n as u32 + 3);
+                        self.push(Op::a(OpK::VFromSlice, a));
+                    }
                     0 => {
                         self.push(Op::new(OpK::VToArr));
                         self.form = F::Arr;
@@ -143,7 +156,7 @@ impl<'a> G<'a> {
                     }
                     5 => {
                         let f = self.fault(self.n * self.w);
-                        let a = self.r.below(3);
+                        let a = self.r.below(4);
                         self.push(Op::abf(OpK::VObserve, a, 0, f));
                     }
                     _ => {
@@ -198,7 +211,14 @@ impl<'a> G<'a> {
         let k = self.keep();
         if self.en_nth && self.r.chance(1, 6) {
             let a = self.r.below(self.len as u32 + 2);
-            self.push(Op::ab(if front { OpK::Nth } else { OpK::NthBack }, a, k));
+            let skipped = (a as usize % (self.len + 2)).min(self.len);
+            let f = self.fault(skipped * self.w);
+            self.push(Op::abf(if front { OpK::Nth } else { OpK::NthBack }, a, k, f));
+            if f > 0 && (f as usize) <= skipped * self.w {
+                // interrupted part-way (approximation; the executor reconciles with the iterator)
+                self.pulled((f as usize + self.w - 1) / self.w, !front);
+                return;
+            }
             self.pulled((a as usize % (self.len + 2)) + 1, !front);
         } else {
             self.push(Op::ab(if front { OpK::Next } else { OpK::NextBack }, 0, k));
@@ -229,8 +249,15 @@ impl<'a> G<'a> {
     }
 
     fn terminal(&mut self) {
-        let c = if self.faulty { self.r.weighted(&[8, 3, 2, 2, 2, 2, 3]) } else { self.r.weighted(&[8, 0, 2, 2, 2, 2, 3]) };
+        let c = if self.faulty { self.r.weighted(&[8, 3, 2, 2, 2, 2, 3, 3]) } else { self.r.weighted(&[8, 0, 2, 2, 2, 2, 3, 3]) };
         match c {
+            7 => {
+                let a = self.r.below(N_CONSUME);
+                let k = self.keep();
+                let f = self.fault(self.len);
+                self.push(Op::abf(OpK::Consume, a, k, f));
+                self.form = F::Gone;
+            }
             0 => {
                 let f = self.fault(self.len * self.w);
                 self.push(Op::abf(OpK::Drop, 0, 0, f));
@@ -242,21 +269,25 @@ impl<'a> G<'a> {
             }
             2 => {
                 let k = self.keep();
-                self.push(Op::ab(OpK::Last, 0, k));
+                let f = self.fault(self.len.saturating_sub(1) * self.w);
+                self.push(Op::abf(OpK::Last, 0, k, f));
                 self.form = F::Gone;
             }
             3 => {
-                self.push(Op::new(OpK::Count));
+                let f = self.fault(self.len * self.w);
+                self.push(Op::abf(OpK::Count, 0, 0, f));
                 self.form = F::Gone;
             }
             4 => {
                 let k = self.keep();
-                self.push(Op::ab(OpK::Fold, 0, k));
+                let f = self.fault(self.len);
+                self.push(Op::abf(OpK::Fold, 0, k, f));
                 self.form = F::Gone;
             }
             5 => {
                 let k = self.keep();
-                self.push(Op::ab(OpK::Rfold, 0, k));
+                let f = self.fault(self.len);
+                self.push(Op::abf(OpK::Rfold, 0, k, f));
                 self.form = F::Gone;
             }
             _ => self.collect(),
@@ -275,6 +306,7 @@ impl<'a> G<'a> {
             1,
             if self.en_inner && self.w > 1 { 5 } else { 0 },
             1,
+            if self.en_adapt { 4 } else { 0 },
         ];
         match self.r.weighted(&w) {
             0 => self.pull(),
@@ -304,12 +336,38 @@ impl<'a> G<'a> {
                 self.twin = true;
             }
             6 => {
-                self.push(Op::new(OpK::Exhaust));
-                self.bag += self.len;
-                self.pulled(self.len, false);
+                let f = self.fault(self.len);
+                self.push(Op::abf(OpK::Exhaust, 0, 0, f));
+                if f > 0 && (f as usize) <= self.len {
+                    self.bag += f as usize - 1;
+                    self.pulled(f as usize, false);
+                } else {
+                    self.bag += self.len;
+                    self.pulled(self.len, false);
+                }
             }
+            9 => self.adapt(),
             7 => self.inner_step(),
-            _ => self.push(Op::new(OpK::CloneProbe)),
+            _ => {
+                let a = self.r.below(3);
+                self.push(Op::a(OpK::CloneProbe, a));
+            }
+        }
+    }
+
+    fn adapt(&mut self) {
+        let which = self.r.below(N_ADAPT);
+        let kraw = self.r.below(self.len as u32 + 2);
+        let keep = self.keep();
+        let k = kraw as usize % (self.len + 2);
+        let planned = adapt_planned(which, k, self.len);
+        let f = self.fault(planned);
+        self.push(Op::abf(OpK::Adapt, which, kraw | keep << 8, f));
+        let back = adapt_back(which);
+        if f > 0 && (f as usize) <= planned {
+            self.pulled(f as usize, back);
+        } else {
+            self.pulled(planned, back);
         }
     }
 
@@ -457,7 +515,10 @@ impl<'a> G<'a> {
                         self.observe();
                     }
                     2 => self.push(Op::new(OpK::Len)),
-                    _ => self.push(Op::new(OpK::CloneProbe)),
+                    _ => {
+                        let a = self.r.below(3);
+                        self.push(Op::a(OpK::CloneProbe, a));
+                    }
                 }
             }
             if self.r.chance(1, 4) {
@@ -540,7 +601,21 @@ impl<'a> G<'a> {
                         mf = MF::Flat;
                     }
                 }
-                MF::M => match self.r.weighted(&[4, 4, 2, 2, 2, 2, 2, 2]) {
+                MF::M => match self.r.weighted(&[4, 4, 2, 2, 2, 2, 2, 2, 2, 2]) {
+                    8 => {
+                        let a = self.r.below(4);
+                        let f = self.fault(nm * nm);
+                        self.push(Op::abf(OpK::MObserve, a, 0, f));
+                    }
+                    9 => {
+                        let a = self.r.below(2);
+                        let f = self.fault(if a == 1 { nm * nm } else { nm });
+                        self.push(Op::abf(OpK::MMapRows, a, 0, f));
+                        if f > 0 && (f as usize) <= if a == 1 { nm * nm } else { nm } {
+                            // the matrix is gone; the run ends here
+                            return false;
+                        }
+                    }
                     0 => {
                         let a = self.r.below(2);
                         self.push(Op::a(OpK::MIntoFlat, a));
@@ -626,6 +701,7 @@ pub fn gen_plan(seed: u64, run: u64) -> Plan {
         en_bagdrop: rng.chance(3, 4),
         en_len: rng.chance(3, 4),
         en_inner: rng.chance(3, 4),
+        en_adapt: rng.chance(3, 4),
         fault_p: [2, 4, 8][rng.below(3) as usize],
         r: &mut rng,
     };
